@@ -305,6 +305,19 @@ def witnesses(pm: ProgramModel, ctx: Ctx) -> None:
     must_equal("C20-WITNESS", "Constraint:case", c1, c3, "constraints differing only in letter case", cw)
     must_differ("Constraint:operator", c1, mb.constraint("c1", mb.node(op("EXCLUDES"), mb.node("A"), mb.node("B"))),
                 "constraints with a different operator", cw)
+    # "change one operator": every pair of distinct binary operators, over plain operands at the root of the constraint and
+    # one level down (an equality that reads REQUIRES as IMPLIES, XOR as OR ... makes a changed operator go unnoticed)
+    import itertools as _it2
+    from ..logic import BINARY_LOGICAL as _BIN
+    for o1_, o2_ in _it2.combinations(list(_BIN), 2):
+        must_differ(f"Constraint:operator-pair:{o1_}/{o2_}",
+                    mb.constraint("c", mb.node(op(o1_), mb.node("A"), mb.node("B"))),
+                    mb.constraint("c", mb.node(op(o2_), mb.node("A"), mb.node("B"))),
+                    f"constraints A {o1_} B and A {o2_} B", cw)
+        must_differ(f"Constraint:operator-pair-nested:{o1_}/{o2_}",
+                    mb.constraint("c", mb.node(op("AND"), mb.node(op(o1_), mb.node("A"), mb.node("B")), mb.node("C"))),
+                    mb.constraint("c", mb.node(op("AND"), mb.node(op(o2_), mb.node("A"), mb.node("B")), mb.node("C"))),
+                    f"constraints (A {o1_} B) & C and (A {o2_} B) & C", cw)
     must_differ("Constraint:operand", c1, mb.constraint("c1", mb.node(op("IMPLIES"), mb.node("A"), mb.node("C"))),
                 "constraints with a different operand", cw)
     must_differ("Constraint:swap", c1, mb.constraint("c1", mb.node(op("IMPLIES"), mb.node("B"), mb.node("A"))),
@@ -474,6 +487,29 @@ def witnesses(pm: ProgramModel, ctx: Ctx) -> None:
         must_differ(f"FeatureModel:{edit}", m0, model(0, edit), f"models differing by edit '{edit}'", mw)
         must_differ(f"FeatureModel:{edit}/perm", model(1), model(0, edit),
                     f"permuted model vs edit '{edit}'", mw)
+    # two models built one after the other through the constructor with its DEFAULT arguments (no list of constraints
+    # given), a constraint then appended to the second one's own list: they differ in a constraint, and the first has none
+    fmc = pm.cls("FeatureModel")
+
+    def bare() -> AObj:
+        r_ = mb.feature("R")
+        mb.relation(r_, [mb.feature("A")], 0, 1)
+        mb.relation(r_, [mb.feature("B")], 0, 1)
+        return it.eval_call_class(fmc, [r_])
+    try:
+        d1, d2 = bare(), bare()
+        lst = it.getattr(d2, "ctcs", ast.Constant(value=None), None)
+        lst.append(mb.constraint("late", mb.node(mb.op("IMPLIES"), mb.node("A"), mb.node("B"))))
+        first = it.getattr(d1, "ctcs", ast.Constant(value=None), None)
+        ctx.check(len(first) == 0, "C20-DISTINCT", "differ:FeatureModel:default-arguments:own-list", mw,
+                  "a model built with default arguments has a list of constraints of its own",
+                  bad="a constraint appended to one model built with default arguments shows up in another model built "
+                      "the same way: the two share one list")
+        must_differ("FeatureModel:default-arguments:constraint-appended", d1, d2,
+                    "a model built with default arguments vs a second one to which a constraint was appended", mw)
+    except (AbsRaise, AttributeError) as exc:
+        ctx.info("C20-DISTINCT", "differ:FeatureModel:default-arguments", mw,
+                 f"models cannot be built with default arguments / have no list of constraints to append to: {exc}")
 
 
 def _where(pm: ProgramModel, cname: str) -> str:
